@@ -617,11 +617,11 @@ def c05_checks(case, replay_case, feats, value, data, world, rpaths, schema_ref,
     visit(value, data, ())
 
 
-def argument_values(opnode, schema_ref, pkg, cfg, rng, pmap) -> Optional[Dict[str, Any]]:
+def argument_values(opnode, schema_ref, pkg, cfg, rng, pmap, custom_scalar_values=None) -> Optional[Dict[str, Any]]:
     """Minimal schema-valid Python arguments for an operation's variables (C03 explores argument space properly)."""
     from ..values import ValueGen, python_args
 
-    vg = ValueGen(schema_ref, rng)
+    vg = ValueGen(schema_ref, rng, custom_scalar_values=custom_scalar_values)
     tree = vg.variables(opnode, minimal=True)
     try:
         return python_args(pkg, cfg, opnode, tree, schema_ref, by_alias=True, pmap=pmap)
